@@ -215,3 +215,51 @@ func extractOf(v ssa.Value, idx int) ssa.Value {
 	}
 	return nil
 }
+
+// leaves resolves phis: the non-phi values v can stand for, leaving out the
+// zero constants (nil, 0, "", false) that error paths put into the result
+// temporaries of an inlined helper.
+func leaves(v ssa.Value) []ssa.Value {
+	var out []ssa.Value
+	seen := map[ssa.Value]bool{}
+	var walk func(x ssa.Value)
+	walk = func(x ssa.Value) {
+		if x == nil || seen[x] {
+			return
+		}
+		seen[x] = true
+		switch y := x.(type) {
+		case *ssa.Phi:
+			for _, e := range y.Edges {
+				walk(e)
+			}
+		case *ssa.Const:
+			if y.Value == nil {
+				return // nil / zero value
+			}
+			if z, ok := cfgx.ConstInt(y); ok && z == 0 {
+				return
+			}
+			if s, ok := cfgx.ConstString(y); ok && s == "" {
+				return
+			}
+			if b, ok := cfgx.ConstBool(y); ok && !b {
+				return
+			}
+			out = append(out, x)
+		default:
+			out = append(out, x)
+		}
+	}
+	walk(v)
+	return out
+}
+
+// sole returns the single value v stands for (see leaves), or v itself when
+// there is not exactly one.
+func sole(v ssa.Value) ssa.Value {
+	if l := leaves(v); len(l) == 1 {
+		return l[0]
+	}
+	return v
+}
